@@ -1,4 +1,264 @@
-(* C05 - stub while the proofs are being written *)
-From AV Require Import Base.Util Model.Prim Model.Crc Model.MsgSet Model.KafkaSpecResp Model.Responses Model.RespView Model.RespRun.
-Theorem C05_stub : True. Proof. exact I. Qed.
-Print Assumptions C05_stub.
+(* C05 - Responses and message sets decode to exactly what was encoded.
+   Theorem statements only; proofs live in Proofs/Resp{Prim,RoundTrip,MsgSet,C05}.v.  Never weaken a statement here.
+
+   Vocabulary
+     Model.KafkaSpecResp   enc_<api>    the INDEPENDENT encoder: the response grammar of the Kafka protocol guide
+                           enc_kforest  message sets (formats 0 and 1) as trees of plain messages and compressed
+                                        wrappers; log_of = what a consumer must see, by the protocol's offset rules
+     Model.Responses       decode_*     afkak's decoders (kafkacodec.py), Model.MsgSet.dec_set = _decode_message_set_iter
+     Model.RespView        wf_<api>     boolean well-formedness: every integer in the range of its wire type, STRING
+                                        <= 32767 bytes and valid ASCII (topic / host names) or UTF-8 (group protocol,
+                                        member ids), BYTES / ARRAY <= 2^31-1; NO other bound: any number of topics,
+                                        partitions, members, offsets, any error code, any value, null vs empty kept
+                           view_<api>   the value the decoder must return, field for field
+   Generators (produce, fetch, offsets, offset commit, offset fetch) are modelled by (items yielded, outcome);
+   outcome [Ok []] = exhausted normally with the whole buffer consumed.  Every statement is for ALL responses. *)
+From AV Require Import Base.Util Model.Prim Model.Crc Model.MsgSet Model.KafkaSpecResp Model.Responses Model.RespView
+     Proofs.RespPrim Proofs.RespRoundTrip Proofs.RespMsgSet Proofs.RespC05.
+
+(* ================================================================== 1. responses, one theorem per API / version *)
+
+(* response header: the correlation id comes back whatever follows it *)
+Theorem C05_correlation_id : forall corr rest,
+  i32 corr = true -> get_response_correlation_id (INT32 corr ++ rest) = Ok corr.
+Proof. exact c05_correlation. Qed.
+Print Assumptions C05_correlation_id.
+
+Theorem C05_api_versions : forall r,
+  wf_apiversions r = true -> decode_api_versions_response (enc_apiversions r) = Ok (view_apiversions r).
+Proof. exact apiversions_rt. Qed.
+Print Assumptions C05_api_versions.
+
+Theorem C05_produce_v0 : forall r,
+  wf_produce r = true -> decode_produce_response 0 (enc_produce 0 r) = Some (view_produce r, Ok []).
+Proof. exact c05_produce_v0. Qed.
+Print Assumptions C05_produce_v0.
+
+(* api_version >= 2 selects the version-2 layout (afkak sends Produce v2 for every negotiated version >= 2) *)
+Theorem C05_produce_v2 : forall ver r,
+  2 <= ver -> wf_produce r = true -> decode_produce_response ver (enc_produce 2 r) = Some (view_produce r, Ok []).
+Proof. exact c05_produce_v2. Qed.
+Print Assumptions C05_produce_v2.
+
+(* Fetch: every field of every partition; the record set (null = empty) goes to the message-set decoder unchanged,
+   for ANY bytes, oracle and depth budget (section 2 says what that decoder yields on encoded message sets) *)
+Theorem C05_fetch_v0 : forall depth orc r,
+  wf_fetch r = true -> decode_fetch_response 0 depth orc (enc_fetch 0 r) = (view_fetch depth orc r, Ok []).
+Proof. exact c05_fetch_v0. Qed.
+Print Assumptions C05_fetch_v0.
+
+Theorem C05_fetch_v2 : forall ver depth orc r,
+  2 <= ver -> wf_fetch r = true ->
+  decode_fetch_response ver depth orc (enc_fetch 2 r) = (view_fetch depth orc r, Ok []).
+Proof. exact c05_fetch_v2. Qed.
+Print Assumptions C05_fetch_v2.
+
+Theorem C05_list_offsets : forall r,
+  wf_offsets r = true -> decode_offset_response (enc_offsets r) = (view_offsets r, Ok []).
+Proof. exact c05_offsets. Qed.
+Print Assumptions C05_list_offsets.
+
+(* brokers / topics / partitions become dicts (a repeated key keeps its first position and its last value);
+   at most MAX_BROKERS = 1024 brokers is part of wf_metadata (afkak refuses more) *)
+Theorem C05_metadata : forall r,
+  wf_metadata r = true -> decode_metadata_response (enc_metadata r) = Ok (view_metadata r).
+Proof. exact c05_metadata. Qed.
+Print Assumptions C05_metadata.
+
+(* with distinct node ids and topic names nothing is merged: every broker and topic, in order *)
+Theorem C05_metadata_unique_keys : forall r,
+  wf_metadata r = true ->
+  NoDup (map sb_node (sm_brokers r)) -> NoDup (map smt_name (sm_topics r)) ->
+  decode_metadata_response (enc_metadata r)
+  = Ok (map (fun b => (sb_node b, view_broker b)) (sm_brokers r),
+        map (fun t => (smt_name t, view_meta_topic t)) (sm_topics r)).
+Proof. exact c05_metadata_unique. Qed.
+Print Assumptions C05_metadata_unique_keys.
+
+Theorem C05_offset_commit : forall r,
+  wf_commit r = true -> decode_offset_commit_response (enc_commit r) = (view_commit r, Ok []).
+Proof. exact c05_commit. Qed.
+Print Assumptions C05_offset_commit.
+
+(* metadata is a NULLABLE_STRING: null stays None, empty stays b"" *)
+Theorem C05_offset_fetch : forall r,
+  wf_ofetch r = true -> decode_offset_fetch_response (enc_ofetch r) = (view_ofetch r, Ok []).
+Proof. exact c05_ofetch. Qed.
+Print Assumptions C05_offset_fetch.
+
+Theorem C05_find_coordinator : forall r,
+  wf_coordinator r = true -> decode_consumermetadata_response (enc_coordinator r) = Ok (view_coordinator r).
+Proof. exact c05_coordinator. Qed.
+Print Assumptions C05_find_coordinator.
+
+Theorem C05_join_group : forall r,
+  wf_join r = true -> decode_join_group_response (enc_join r) = Ok (view_join r).
+Proof. exact c05_join. Qed.
+Print Assumptions C05_join_group.
+
+Theorem C05_heartbeat : forall r,
+  wf_errcode r = true -> decode_heartbeat_response (enc_heartbeat r) = Ok (se_error r).
+Proof. exact c05_heartbeat. Qed.
+Print Assumptions C05_heartbeat.
+
+Theorem C05_leave_group : forall r,
+  wf_errcode r = true -> decode_leave_group_response (enc_leave r) = Ok (se_error r).
+Proof. exact c05_leave. Qed.
+Print Assumptions C05_leave_group.
+
+Theorem C05_sync_group : forall r,
+  wf_sync r = true -> decode_sync_group_response (enc_sync r) = Ok (ss_error r, Some (ss_assignment r)).
+Proof. exact c05_sync. Qed.
+Print Assumptions C05_sync_group.
+
+(* the consumer protocol's structures carried inside JoinGroup metadata / SyncGroup assignment *)
+Theorem C05_join_protocol_metadata : forall r,
+  wf_subscription r = true -> decode_join_group_protocol_metadata (enc_subscription r) = Ok (view_subscription r).
+Proof. exact c05_subscription. Qed.
+Print Assumptions C05_join_protocol_metadata.
+
+Theorem C05_sync_member_assignment : forall r,
+  wf_assignment r = true -> decode_sync_group_member_assignment (enc_assignment r) = Ok (view_assignment r).
+Proof. exact c05_assignment. Qed.
+Print Assumptions C05_sync_member_assignment.
+
+(* bytes after the response are ignored *)
+Theorem C05_trailing_bytes_ignored : forall r rest,
+  wf_metadata r = true -> decode_metadata_response (enc_metadata r ++ rest) = Ok (view_metadata r).
+Proof. exact c05_trailing_metadata. Qed.
+Print Assumptions C05_trailing_bytes_ignored.
+
+(* ================================================================== 2. message sets *)
+
+(* trees of ANY nesting depth (the property asks for 2), both formats, null / empty / any keys and values, any
+   offsets, timestamps and attribute bits outside the codec mask; the codec is an oracle: [gz] compressed, [orc]
+   decompresses, the only hypothesis is the round-trip law *)
+Theorem C05_msgset_roundtrip : forall gz orc,
+  (forall x, gz_dec orc (gz x) = Ok x) ->
+  forall d ts, (kdepth_forest ts < d)%nat -> forallb (wf_ktree gz) ts = true ->
+  dec_set_all d orc (enc_kforest gz ts) = Ok (view_log (log_of_forest ts)).
+Proof. exact c05_msgset. Qed.
+Print Assumptions C05_msgset_roundtrip.
+
+(* the same as seen by a consumer of the generator: exactly these pairs are yielded, then normal exhaustion *)
+Theorem C05_msgset_roundtrip_lazy : forall gz orc,
+  (forall x, gz_dec orc (gz x) = Ok x) ->
+  forall d ts, (kdepth_forest ts < d)%nat -> forallb (wf_ktree gz) ts = true ->
+  dec_set d orc (enc_kforest gz ts) = (view_log (log_of_forest ts), None).
+Proof. exact c05_msgset_lazy. Qed.
+Print Assumptions C05_msgset_roundtrip_lazy.
+
+(* offsets inside a wrapper.  Format 0: as stored. *)
+Theorem C05_wrapper_offsets_v0 : forall gz orc,
+  (forall x, gz_dec orc (gz x) = Ok x) ->
+  forall d off attr ts key kids,
+  (kdepth (KWrap off 0 attr ts key kids) < d)%nat -> wf_ktree gz (KWrap off 0 attr ts key kids) = true ->
+  dec_set d orc (enc_ktree gz (KWrap off 0 attr ts key kids)) = (view_log (log_of_forest kids), None).
+Proof. exact wrapper_v0. Qed.
+Print Assumptions C05_wrapper_offsets_v0.
+
+(* Format 1: wrapper_offset - last_inner + inner ([relocate], spelled out by the next two theorems) *)
+Theorem C05_wrapper_offsets_v1 : forall gz orc,
+  (forall x, gz_dec orc (gz x) = Ok x) ->
+  forall d off attr ts key kids,
+  (kdepth (KWrap off 1 attr ts key kids) < d)%nat -> wf_ktree gz (KWrap off 1 attr ts key kids) = true ->
+  dec_set d orc (enc_ktree gz (KWrap off 1 attr ts key kids))
+  = (view_log (relocate off (log_of_forest kids)), None).
+Proof. exact wrapper_v1. Qed.
+Print Assumptions C05_wrapper_offsets_v1.
+
+Theorem C05_relocate_spec : forall (W : Z) (l : list (Z * kmsg)) o m,
+  relocate W (l ++ [(o, m)]) = map (fun om => (W - o + fst om, snd om)) (l ++ [(o, m)]).
+Proof. exact (@relocate_spec kmsg). Qed.
+Print Assumptions C05_relocate_spec.
+
+(* a broker numbers the inner messages 0..n-1: a wrapper stored at W yields W-n+1 .. W *)
+Theorem C05_relocate_broker : forall (W : Z) (l : list (Z * kmsg)),
+  map fst l = map Z.of_nat (seq 0 (length l)) ->
+  map fst (relocate W l) = map (fun i => W - Z.of_nat (length l) + 1 + Z.of_nat i) (seq 0 (length l)).
+Proof. exact (@relocate_broker kmsg). Qed.
+Print Assumptions C05_relocate_broker.
+
+(* end to end: a Fetch response whose record sets are encoded message-set trees decodes to every partition's
+   fields and, per partition, exactly the log of its record set *)
+Theorem C05_fetch_sets_v0 : forall gz orc,
+  (forall x, gz_dec orc (gz x) = Ok x) ->
+  forall depth r, wf_t_fetch gz depth r = true ->
+  decode_fetch_response 0 depth orc (enc_fetch 0 (spec_fetch gz r)) = (view_t_fetch r, Ok []).
+Proof. exact fetch_sets_v0. Qed.
+Print Assumptions C05_fetch_sets_v0.
+
+Theorem C05_fetch_sets_v2 : forall gz orc,
+  (forall x, gz_dec orc (gz x) = Ok x) ->
+  forall ver depth r, 2 <= ver -> wf_t_fetch gz depth r = true ->
+  decode_fetch_response ver depth orc (enc_fetch 2 (spec_fetch gz r)) = (view_t_fetch r, Ok []).
+Proof. exact fetch_sets_v2. Qed.
+Print Assumptions C05_fetch_sets_v2.
+
+(* ================================================================== 3. outside the supported versions
+   afkak supports Produce / Fetch versions 0 and 2 only (kafkacodec.py:559 "we only support 2 versions"); a
+   negotiated version >= 2 is sent as 2.  The version-1 layouts are NOT decoded: recorded here so that the boundary
+   of the theorems above is explicit (harness/props/C05.py replays both on the real code as notes). *)
+Theorem C05_produce_v1_refuted :
+  wf_produce produce_v1_witness = true /\
+  decode_produce_response 1 (enc_produce 1 produce_v1_witness) = Some ([], Err Underflow).
+Proof. exact c05_produce_v1_refuted. Qed.
+Print Assumptions C05_produce_v1_refuted.
+
+Theorem C05_fetch_v1_refuted : forall depth orc r,
+  decode_fetch_response 1 depth orc (enc_fetch 1 r) = ([], Err NameErr).
+Proof. exact c05_fetch_v1_refuted. Qed.
+Print Assumptions C05_fetch_v1_refuted.
+
+(* ================================================================== non-vacuity *)
+Definition ex_topic : list Z := [116; 111; 112; 105; 99].          (* "topic" *)
+Definition ex_cafe : list Z := [99; 97; 102; 195; 169].            (* "café" in UTF-8 *)
+
+Example ex_produce_wf :
+  wf_produce (mk_s_produce (-2147483648) [mk_s_produce_topic ex_topic
+     [mk_s_produce_part 0 0 9223372036854775807 (-1); mk_s_produce_part 2147483647 (-32768) (-9223372036854775808) 5];
+     mk_s_produce_topic [] []] 2147483647) = true.
+Proof. vm_compute. reflexivity. Qed.
+
+Example ex_ofetch_null_vs_empty :
+  let r := mk_s_ofetch 1 [mk_s_ofetch_topic ex_topic
+             [mk_s_ofetch_part 0 5 None 0; mk_s_ofetch_part 1 6 (Some []) 3; mk_s_ofetch_part 2 7 (Some [255; 254]) 119]] in
+  wf_ofetch r = true /\
+  map gi_metadata (fst (decode_offset_fetch_response (enc_ofetch r))) = [None; Some []; Some [255; 254]].
+Proof. split; vm_compute; reflexivity. Qed.
+
+Example ex_metadata_wf :
+  wf_metadata (mk_s_metadata 3 [mk_s_broker 1 [104] 9092; mk_s_broker 2 [] (-1)]
+     [mk_s_meta_topic 3 ex_topic [mk_s_meta_part 5 0 1 [1; 2] []; mk_s_meta_part 0 1 (-1) [] [2]]]) = true.
+Proof. vm_compute. reflexivity. Qed.
+
+Example ex_join_wf :
+  wf_join (mk_s_join 9 27 4 ex_cafe ex_cafe [] [mk_s_member ex_cafe [0; 1; 255]; mk_s_member [] []]) = true.
+Proof. vm_compute. reflexivity. Qed.
+
+(* the compression oracle hypothesis is satisfiable (an "identity with a marker byte" codec) *)
+Definition ex_gz (b : list Z) : list Z := 0x1F :: b.
+Example ex_oracle_roundtrip : forall x, gz_dec marker_oracle (ex_gz x) = Ok x.
+Proof. reflexivity. Qed.
+
+(* a log segment as a broker stores it: a format-1 wrapper at offset 102 holding relative offsets 0,1,2, the third
+   entry itself a format-0 wrapper (nesting depth 2); null and empty keys / values; timestamps *)
+Definition ex_forest : list ktree :=
+  [KLeaf 99 (mk_kmsg 0 0 0 None (Some [98]));
+   KWrap 102 1 1 9 None
+     [KLeaf 0 (mk_kmsg 1 0 1500000000000 (Some [107]) (Some []));
+      KLeaf 1 (mk_kmsg 1 8 (-1) (Some []) None);
+      KWrap 2 0 1 0 None [KLeaf 2 (mk_kmsg 0 0 0 None (Some [118]))]];
+   KLeaf 103 (mk_kmsg 1 0 7 None None)].
+
+Example ex_forest_wf : forest_ok ex_gz 3 ex_forest = true.
+Proof. vm_compute. reflexivity. Qed.
+
+Example ex_forest_offsets :
+  map fst (fst (dec_set 3 marker_oracle (enc_kforest ex_gz ex_forest))) = [99; 100; 101; 102; 103].
+Proof. vm_compute. reflexivity. Qed.
+
+Example ex_fetch_sets_wf :
+  wf_t_fetch ex_gz 3 (mk_t_fetch 1 0 [mk_t_fetch_topic ex_topic
+     [mk_t_fetch_part 0 0 104 (Some ex_forest); mk_t_fetch_part 1 1 (-1) None; mk_t_fetch_part 2 0 0 (Some [])]]) = true.
+Proof. vm_compute. reflexivity. Qed.
